@@ -289,3 +289,9 @@ def _(c):
     c.ensures("an-active-assignment-of-exactly-these-partitions-none-with-a-position",
               "self._topic_partitions == topic_partitions and not self.unassign_future.done()"
               " and forall(TP, lambda q: implies(q in self._tp_state, self._tp_state[q]._position is None))")
+
+
+# the TopicPartitionState model used inside Assignment.__init__ is itself tied to TopicPartitionState.__init__
+_c = REGISTRY[_SS.MOD + ":TopicPartitionState.__init__"]
+for _i, _p in enumerate(model_posts(_SS.MOD + ":Assignment.__init__", "TopicPartitionState", ["assignment"])):
+    _c.ensures("as-the-call-model-in-Assignment.__init__-assumes-%d" % _i, _p)
